@@ -806,6 +806,9 @@ FILTERS = [
     ("%Name().isprintable()", lambda n, s, d: n.isprintable()),
     ("%Name() == str(%Name()) and type(%Name()) is str and type(%Size()) is int", lambda n, s, d: True),
     ("'CANARY' in %Name()", lambda n, s, d: "CANARY" in n),
+    # path-valued tags WITH a context: the value is a path object there too
+    ("%Dir{top/mid/%Name()} == PosixPath('top/mid') and %Dir{top/mid/%Name()}.name == 'mid'", lambda n, s, d: True),
+    ("type(%Dir{x/%Name()}) is type(%Dir()) and %Name{q/%Name()} == %Name()", lambda n, s, d: True),
 ]
 SORTS = [
     ("%Name()", lambda n, s, d: (n,)),
